@@ -1001,6 +1001,10 @@ func (c *compiler) compileInvoke(flow *flow, o *ast.CallExpr) *noOutput {
 		c.errf(c.nodePosition(o), "expected to find a bool, found %v instead", astutil.NodeDescription(o.Args[0]))
 		return nil
 	}
+	if val.Value == nil || val.Value.Kind() != constant.Bool {
+		c.errf(c.nodePosition(o.Args[0]), "cff.Invoke expects a boolean constant, found %v", astutil.NodeDescription(o.Args[0]))
+		return nil
+	}
 	if constant.BoolVal(val.Value) {
 		return flow.addNoOutput()
 	}
